@@ -78,7 +78,7 @@ KW = ["if", "elif", "else", "endif", "for", "endfor", "in", "is", "not", "and", 
       "super", "self", "caller", "a", "b", "_"]
 EXTKW = ["do", "break", "continue", "trans", "endtrans", "pluralize", "debug", "trimmed"]
 OPS = ["+", "-", "*", "/", "//", "%", "**", "~", "(", ")", "[", "]", "{", "}", "==", "!=", "<", ">", "<=", ">=", "=", ".", ":", "|", ",", ";"]
-LITS = ["1", "1.5", "'s'"]
+LITS = ["1", "1.5", "'s'"]  # (number spellings are covered by the E2 inclusion lemmas)
 STRUCT = ["{{", "}}", "{%", "%}", "x"]
 
 
@@ -301,6 +301,15 @@ def smt_lexer(param):
     return out
 
 
+def smt_numbers(param):
+    from vfw.harness import C14
+    return C14.smt_inclusion(param)
+
+
+def number_replay(w):
+    return all(load_ok(e, "{{ " + w + " }}") and load_ok(e, "{% set q = " + w + " %}") for e in (ENVS["default"], ENVS["async"]))
+
+
 def smt_replay(cex):
     if isinstance(cex, str):
         return True
@@ -319,6 +328,10 @@ def conditions(tier, seed):
         for line in (False, True):
             out.append(Cond(f"E2 lexer rules cannot match empty / operators[delims={dl},line={line}]", "smt_lexer", kind="smt", mode="A",
                             param={"delims": dl, "line": line, "trim": line}, replay="smt_replay", timeout=120, bounds="every state-preserving rule of the live rule table"))
+    for which in ("integer_re", "float_re"):
+        out.append(Cond(f"E2 L({which}) within what Python's converters accept", "smt_numbers", kind="smt", mode="A", param={"which": which},
+                        replay="number_replay", timeout=120, witnesses=["0x_1F", "1_000", "00", "1e5"],
+                        bounds="all strings <= 64 chars: int(v, 0) / literal_eval cannot raise for a spelling the number rules match"))
     out.append(Cond("seed corpus loads or fails with TemplateSyntaxError", "seeds_ok", mode="B", param={}, timeout=to,
                     witnesses=[[0, 0], [2, 3], [18, 1]], bounds=f"{len(SEEDS) + len(EXT_SEEDS)} seeds x 5 environments"))
     leads = {"{{": [[], ["a"], ["a", "("], ["a", "["], ["a", "|"], ["a", "is"], ["(", "a"], ["a", "if"], ["[", "1"], ["{", "'s'"], ["a", "(", "a", "="], ["a", "[", "1", ":"],
